@@ -18,38 +18,9 @@ use super::*;
 mod ospec;
 use ospec::*;
 
-// ---------------------------------------------------------------------------------------------------
-// abstract view
-// ---------------------------------------------------------------------------------------------------
-pub(crate) fn has(r: Region, x: i64, y: i64) -> bool {
-    (r.left as i64) <= x && x < r.left as i64 + r.width as i64 && (r.top as i64) <= y && y < r.top as i64 + r.height as i64
-}
-pub(crate) fn l(r: Region) -> i64 { r.left as i64 }
-pub(crate) fn t(r: Region) -> i64 { r.top as i64 }
-pub(crate) fn rt(r: Region) -> i64 { r.left as i64 + r.width as i64 }
-pub(crate) fn bt(r: Region) -> i64 { r.top as i64 + r.height as i64 }
-
-pub(crate) fn any_region() -> Region {
-    Region { left: kani::any(), top: kani::any(), width: kani::any(), height: kani::any() }
-}
-/// The right / bottom edge is representable as i32: true of every region the renderer builds
-/// (|left| < 2^31 - 2^30 - 2^13 and width <= 2^30 + 2^13 there). `right()`/`bottom()` saturate otherwise.
-pub(crate) fn wf(r: Region) -> bool {
-    rt(r) <= i32::MAX as i64 && bt(r) <= i32::MAX as i64
-}
-pub(crate) fn any_wf_region() -> Region {
-    let r = any_region();
-    kani::assume(wf(r));
-    r
-}
-fn any_point() -> (i64, i64) {
-    let x: i32 = kani::any();
-    let y: i32 = kani::any();
-    (x as i64, y as i64)
-}
-/// floor(v / 2^f) and ceil(v / 2^f) on mathematical integers
-fn floor_shift(v: i64, f: u32) -> i64 { v >> f }
-fn ceil_shift(v: i64, f: u32) -> i64 { (v + (1i64 << f) - 1) >> f }
+#[path = "@SPEC@/region_view.rs"]
+mod rview;
+use rview::*;
 
 // ---------------------------------------------------------------------------------------------------
 // constructors and observers: all inputs
@@ -347,31 +318,18 @@ fn container_aligned_contract() {
 // ---------------------------------------------------------------------------------------------------
 // apply_orientation: a rectangle of the *displayed* image -> exactly the stored samples shown in it
 // ---------------------------------------------------------------------------------------------------
-pub(crate) fn header_with(width: u32, height: u32, orientation: u32) -> ImageHeader {
-    use jxl_oxide_common::BundleDefault;
-    let mut size = <jxl_image::SizeHeader as BundleDefault<()>>::default_with_context(());
-    size.width = width;
-    size.height = height;
-    let mut metadata = <jxl_image::ImageMetadata as BundleDefault<()>>::default_with_context(());
-    metadata.orientation = orientation;
-    ImageHeader { size, metadata }
-}
-
-#[kani::proof]
-fn apply_orientation_contract() {
+fn apply_orientation_for(o: u32) {
     let (w, h): (u32, u32) = (kani::any(), kani::any());
-    let o: u32 = kani::any();
     // SizeHeader gives 1 <= height <= 2^30 and 1 <= width <= 2^31; width = 2^31 (ratio 7 of height 2^30) is the
     // subject of obligation im.oriented_dims, here the stored size is representable as i32.
     kani::assume(w >= 1 && h >= 1 && w <= i32::MAX as u32 && h <= i32::MAX as u32);
-    kani::assume(1 <= o && o <= 8); // 1 + u(3)
     let hdr = header_with(w, h, o);
     let (dw, dh) = spec_oriented_dims(o, w as i64, h as i64);
     // C06 / C15 quantify over non-empty rectangles inside the (displayed) image
     let a = any_region();
     kani::assume(!a.is_empty() && l(a) >= 0 && t(a) >= 0 && rt(a) <= dw && bt(a) <= dh);
     let r = a.apply_orientation(&hdr);
-    // (1) every displayed point of the rectangle comes from a stored point of the result
+    // every stored point: it is in the result iff the place where it is displayed is in the rectangle
     let (sx, sy) = any_point();
     if spec_inside(w as i64, h as i64, sx, sy) {
         let (dx, dy) = spec_orientation(o, w as i64, h as i64, sx, sy);
@@ -382,10 +340,18 @@ fn apply_orientation_contract() {
     let swapped = o >= 5;
     assert!(if swapped { r.width == a.height && r.height == a.width } else { r.width == a.width && r.height == a.height },
         "[C06,C15] apply_orientation keeps (orientations 1-4) or swaps (5-8) the size");
-    kani::cover!(o == 6 && a.width != a.height && a.left > 0);
-    kani::cover!(o == 7);
-    kani::cover!(o == 2 && a.left > 0 && rt(a) < dw);
+    kani::cover!(a.width != a.height && a.left > 0 && a.top > 0 && rt(a) < dw && bt(a) < dh && w != h);
+    kani::cover!(a.width == 1 && a.height == 1);
 }
+// one harness per orientation (1 + u(3)): a symbolic orientation costs 290 s, a concrete one 11 s
+#[kani::proof] fn apply_orientation_o1() { apply_orientation_for(1); }
+#[kani::proof] fn apply_orientation_o2() { apply_orientation_for(2); }
+#[kani::proof] fn apply_orientation_o3() { apply_orientation_for(3); }
+#[kani::proof] fn apply_orientation_o4() { apply_orientation_for(4); }
+#[kani::proof] fn apply_orientation_o5() { apply_orientation_for(5); }
+#[kani::proof] fn apply_orientation_o6() { apply_orientation_for(6); }
+#[kani::proof] fn apply_orientation_o7() { apply_orientation_for(7); }
+#[kani::proof] fn apply_orientation_o8() { apply_orientation_for(8); }
 
 /// The degenerate rectangle: the image of the empty set is the empty set.
 #[kani::proof]
